@@ -240,6 +240,11 @@ func (api *API) callSyntacticValidator(ctx context.Context, value reflect.Value,
 	// try to get the validator for the dereferenced pointer type
 	if !exists || !vldtrs.syntacticValidator.IsValid() {
 		if valueType.Kind() == reflect.Ptr {
+			if value.IsNil() {
+				// there is no object to validate behind a nil pointer (value.Elem() would be the zero Value, and
+				// calling the validator with it panics); the encoder reports the nil pointer itself
+				return nil
+			}
 			valueType = valueType.Elem()
 			value = value.Elem()
 			vldtrs, exists = api.validatorsRegistry.Get(valueType)
